@@ -10,7 +10,7 @@ from .. import gen, progs
 PID = 'C03'
 TAU = 1e-7
 RULE = ('every program of the catalogue (single operations with all rank/axis/operand-kind variants, buffers, views, '
-        'factorization outputs) x (D,P) x recording kind {ndarray, UTPM(1,1), UTPM(2,2)} x recording point {= or != evaluation '
+        'factorization outputs) x (D,P) x recording kind {ndarray, UTPM(1,1), UTPM(2,2), the evaluation polynomial itself followed by a sweep without re-evaluation} x recording point {= or != evaluation '
         'point}, plus random straight-line compositions of length 3..12; seeds ybar and directions v random, non-symmetric, '
         'non-zero at all orders; check: sum_elements (xbar*v)_d == sum_elements (ybar*Jv)_d for every d<D and direction, '
         'tolerance 1e-7 x pairing of absolute values; a class = (program, D, P, recording kind); non-trivial = the pairing '
@@ -34,7 +34,7 @@ def cases(tier, seed):
                 s = case_seed('C03', seed, prog.name, D, P, rep)
                 r = np.random.default_rng(s)
                 out.append({'kind': 'single', 'seed': s, 'params': {'prog': prog.name, 'D': D, 'P': P,
-                                                                     'rec': ['ndarray', 'utpm11', 'utpmDP'][int(r.integers(3))],
+                                                                     'rec': ['ndarray', 'utpm11', 'utpmDP', 'direct'][int(r.integers(4))],
                                                                      'rec_at_eval': bool(r.integers(2))}})
     ncomp = 300 if tier == 'quick' else 4000
     for i in range(ncomp):
@@ -42,7 +42,7 @@ def cases(tier, seed):
         r = np.random.default_rng(s)
         D, P = DPs(tier)[int(r.integers(len(DPs(tier))))]
         out.append({'kind': 'comp', 'seed': s, 'params': {'len': int(r.integers(3, 13)), 'D': D, 'P': P,
-                                                          'rec': ['ndarray', 'utpm11', 'utpmDP'][int(r.integers(3))]}})
+                                                          'rec': ['ndarray', 'utpm11', 'utpmDP', 'direct'][int(r.integers(4))]}})
     return out
 
 
@@ -83,12 +83,14 @@ def duality(ctx, mech, label, f, xs, rng, rec_kind, rec_bases, cls, sample=None)
         ctx.skip('out_of_domain:nonfinite-forward'); return False
     if max(np.max(np.abs(Jv)), np.max(np.abs(ydir))) > 1e5:
         ctx.skip('out_of_domain:ill-conditioned (|y| or |Jv| > 1e5)'); return False
+    direct = rec_kind == 'direct'          # record with the evaluation polynomial itself and sweep without re-evaluation
     try:
-        cg, _ = progs.record(f, [progs.rec_value(rec_kind, b, rng) for b in rec_bases])
+        cg, _ = progs.record(f, [UTPM(x.copy()) for x in xs] if direct else [progs.rec_value(rec_kind, b, rng) for b in rec_bases])
     except Exception as e:
         ctx.skip('not-traceable:' + label); return False
     try:
-        cg.pushforward([UTPM(x.copy()) for x in xs])
+        if not direct:
+            cg.pushforward([UTPM(x.copy()) for x in xs])
         y = cg.dependentFunctionList[0].x
     except Exception as e:
         ctx.skip('replay-raises (C05 matter):' + label); return False
